@@ -10,6 +10,7 @@ import (
 	"bytes"
 	"fmt"
 	"os"
+	"os/exec"
 	"runtime/debug"
 	"sort"
 	"strings"
@@ -28,9 +29,13 @@ const (
 	keyEmpty = "C04-empty-blob-dropped-by-compaction"
 	keyTTL   = "C04-ttl-filter-uses-lastmodified-and-volume-ttl"
 	keyOrder = "C04-compact1-index-in-key-order-truncates-data"
+	keyRace  = "C04-race-volume-version-getter-writes"
 )
 
 func TestMain(m *testing.M) {
+	if os.Getenv("VERIF_RACE") == "1" && os.Getenv("C04_RACE_CHILD") == "" {
+		os.Exit(raceParent())
+	}
 	debug.SetGCPercent(400)
 	vlib.Rule("C04: rapid-generated histories over 5 keys: 0-12 operations before, then 1-2 rounds of [Compact (scan based) | Compact2 (index based, the vacuum path); 0-6 operations in between (optionally a second Compact and more operations); CommitCompact or cleanup; 0-5 operations after], final remount. Operations: write (payload 0,1,8,100 or random <=300 bytes; needle TTL none / 5m / 2h; LastModified now / far past / future), same-content rewrite, delete. Volume TTL none / 3m / 1h, needle map memory / leveldb. A bounded-exhaustive enumerator covers all short histories over 2 keys. One evaluation = one history with every read-back compared. Non-trivial = a committed compaction with >=1 delete or overwrite before it and >=1 operation between Compact and Commit. Distinct = distinct written-out history.")
 	vlib.Assume("TTL expiry cannot be reached inside a test case (append time is set by the server, TTLs are >= 3 minutes, a case lasting > 60 s is discarded), so every blob written is one that the read path still returns; the reference model mirrors two behaviours that belong to C01 (a same-content rewrite keeps the stored metadata; deleting an empty blob is a no-op).")
@@ -846,7 +851,102 @@ func TestRaceCompactConcurrent(t *testing.T) {
 	})
 }
 
+// ------------------------------------------------------------------ race-report triage
+
+const versionGetterFrame = "github.com/chrislusf/seaweedfs/weed/storage.(*Volume).Version()"
+
+// raceParent runs the -race tests in a child process and triages the race
+// detector's reports: with keyRace listed as known, reports in which one of the
+// two conflicting accesses is made by Volume.Version() itself (the getter stores
+// SuperBlock.Version on every call) are attributed to that finding; any other
+// report, any functional failure, and (when the finding is not listed) every
+// report fails the run. The child's statistics file is the one the driver reads.
+func raceParent() int {
+	cmd := exec.Command(os.Args[0], os.Args[1:]...)
+	cmd.Env = append(os.Environ(), "C04_RACE_CHILD=1", "GORACE=halt_on_error=0")
+	out, err := cmd.CombinedOutput()
+	text := string(out)
+	parts := strings.Split(text, "==================\n")
+	var rest strings.Builder
+	listed, unlisted := 0, 0
+	var firstUnlisted string
+	for _, p := range parts {
+		if !strings.HasPrefix(p, "WARNING: DATA RACE") {
+			rest.WriteString(p)
+			continue
+		}
+		// the two conflicting accesses are the first two stanzas; their top frame is the line after the stanza header
+		stanzas := strings.Split(p, "\n\n")
+		hit := false
+		for i := 0; i < len(stanzas) && i < 2; i++ {
+			lines := strings.Split(strings.TrimSpace(strings.TrimPrefix(stanzas[i], "WARNING: DATA RACE\n")), "\n")
+			if len(lines) >= 2 && strings.TrimSpace(lines[1]) == versionGetterFrame {
+				hit = true
+			}
+		}
+		if hit && vlib.Known(keyRace) {
+			listed++
+		} else {
+			unlisted++
+			if firstUnlisted == "" {
+				firstUnlisted = p
+			}
+		}
+	}
+	functional := false
+	for _, l := range strings.Split(rest.String(), "\n") {
+		t := strings.TrimSpace(l)
+		if strings.Contains(t, "race detected during execution of test") || t == "FAIL" || strings.HasPrefix(t, "--- FAIL") || strings.HasPrefix(t, "FAIL\t") {
+			continue
+		}
+		if strings.Contains(t, "[rapid] failed") || strings.HasPrefix(t, "panic:") || strings.HasPrefix(t, "fatal error") || strings.Contains(t, "[rapid] flaky") {
+			functional = true
+		}
+	}
+	switch {
+	case functional:
+		fmt.Print(text)
+		return 1
+	case unlisted > 0:
+		fmt.Printf("%d data race report(s) not attributable to a listed finding (%d attributable); first one:\n%s\n--- FAIL: TestRaceCompactConcurrent (unlisted data race)\nFAIL\n", unlisted, listed, firstUnlisted)
+		return 1
+	case err != nil && listed == 0:
+		fmt.Print(text)
+		fmt.Printf("child failed without a recognisable cause: %v\n--- FAIL: TestRaceCompactConcurrent (child process)\nFAIL\n", err)
+		return 1
+	}
+	fmt.Print(rest.String())
+	fmt.Printf("race triage: %d data race report(s), all with Volume.Version() as one of the two accesses (listed finding %s); no functional failure\nPASS\n", listed, keyRace)
+	return 0
+}
+
 // ------------------------------------------------------------------ finding probes
+
+// TestFindingVersionGetter shows the root cause of the data races deterministically
+// (the race detector is not available in the probe binary): Volume.Version(), which
+// every concurrent read and write of a volume calls, several of them without holding
+// the volume lock, stores into the shared SuperBlock on every call.
+func TestFindingVersionGetter(t *testing.T) {
+	quietGlog()
+	dir := vlib.TempDir()
+	defer os.RemoveAll(dir)
+	s := openStore(dir, storage.NeedleMapInMemory)
+	defer s.Close()
+	if err := newVolume(s, storage.NeedleMapInMemory, ""); err != nil {
+		t.Fatal(err)
+	}
+	v := s.GetVolume(vid)
+	stores := 0
+	for i := 0; i < 3; i++ {
+		want := v.Version()
+		v.SuperBlock.Version = 0 // a marker: if the getter stores, it is overwritten
+		if v.Version() == want && v.SuperBlock.Version == want {
+			stores++
+		}
+		v.SuperBlock.Version = want
+	}
+	vlib.Finding(t, keyRace, stores > 0, fmt.Sprintf("Volume.Version() stored SuperBlock.Version in %d of 3 consecutive calls (each store is an unsynchronized write racing with every other reader/writer; go test -race reports it in TestRaceCompactConcurrent)", stores))
+}
 
 func probe(cfg config, steps []step) (*violation, string) {
 	v, _ := run(cfg, steps, &runStats{}, false)
